@@ -266,7 +266,7 @@ func exec(c px.Context, op string, args []sx.Sexp) core.Result {
 }
 
 func gen(g *core.G) {
-	lg := &lat.Gen{R: g.Rng}
+	lg := &lat.Gen{R: g.Rng, Call: true}
 	u1, u2 := lat.Universe(1), lat.Universe(2)
 	vals := lat.ValUniverse()
 	pick := func(ts []lat.Ty) lat.Ty { return ts[g.Rng.Intn(len(ts))] }
@@ -317,6 +317,15 @@ func gen(g *core.G) {
 		}
 	}
 
+	// the Callable types: generalisation of each, commonType of a sample of the pairs
+	for _, a := range lat.CallableUniverse() {
+		g.Emit("gen " + s(a))
+		for _, b := range lat.CallableUniverse() {
+			if g.Thorough() || g.Rng.Intn(10) == 0 {
+				g.Emit("common " + s(a) + " " + s(b))
+			}
+		}
+	}
 	// the Runtime types: generalisation of each, commonType of every pair
 	for _, a := range lat.RuntimeUniverse() {
 		g.Emit("gen " + s(a))
